@@ -77,6 +77,7 @@ type Exec struct {
 	idxUses  map[string]map[string]bool
 	lookupAtEnd bool // local-variable lookup sees every definition of the block it is evaluated at
 	linking     bool
+	sentAssumed map[string]bool
 	constGlobals map[string]bool
 }
 
